@@ -246,6 +246,10 @@ func (w *worker[T, JobType]) WaitUntilFinished() {
 }
 
 func (w *worker[T, JobType]) Errs() <-chan error {
+	// Stop and Restart replace the channel under the lock
+	w.mx.RLock()
+	defer w.mx.RUnlock()
+
 	return w.errorChan
 }
 
